@@ -5,9 +5,11 @@ Field-generic model of `utils.diagonalize_form`, `numerical.svd_kernel` / `utils
 LAPACK enters by contract: `numpy.linalg.eigh` is the pair `(eigs, U)` it returned (assumed:
 `Uᵀ B U = diag eigs`, `Uᵀ U = 1`), `numpy.linalg.svd` the triple `(u, s, vh)` (assumed:
 `A = u Σ vh`, `vh vhᵀ = 1`, `s` descending so that the values counted as small are the
-trailing ones), `utils.invert` is Mathlib's `⁻¹`.  `np.argsort` is a **stable** sort of the
-indices (numpy uses insertion sort below 17 elements).  `np.isclose(·, 0)` / `s < tolerance`
-are modelled exactly (`= 0`): the theorems are about exact arithmetic.
+trailing ones), `utils.invert` is Mathlib's `⁻¹`.  `np.argsort` is modelled by insertion sort of
+the indices; numpy's default sort is **not** stable (SIMD sorts on AVX2/AVX-512), so the order
+among equal keys is unspecified — the theorems use only that the result is a permutation along
+which the keys are sorted, and the correspondence compares modulo ties.  `np.isclose(·, 0)` /
+`s < tolerance` are modelled exactly (`= 0`): the theorems are about exact arithmetic.
 -/
 import GT.Model.Charts
 import Mathlib.Data.List.Sort
@@ -26,7 +28,7 @@ def keyLE (key : Fin n → K) (i j : Fin n) : Prop := key i ≤ key j
 
 instance (key : Fin n → K) : DecidableRel (keyLE key) := fun i j => inferInstanceAs (Decidable (key i ≤ key j))
 
-/-- `np.argsort(key, axis=-1)`: stable sort of `0..n-1` by `key` -/
+/-- `np.argsort(key, axis=-1)`: a sort of `0..n-1` by `key` (insertion sort; ties: see header) -/
 def argsort (key : Fin n → K) : List (Fin n) := (List.finRange n).insertionSort (keyLE key)
 
 /-- sort keys computed by `diagonalize_form(order_eigenvalues="minkowski")`; the code's variable
